@@ -1,15 +1,36 @@
-"""C01 - backward of every tensor op is the exact VJP (structural part)."""
-from sa import opcat, rules_template as T
+"""C01 - backward of every tensor op is the exact VJP (structural part: wiring, binding, accumulation, linearity in g,
+un-broadcasting, inverse permutations, accumulating scatters, reduction re-insertion, axis typestate)."""
+from sa import opcat, rules_template as T, rules_kernel as K
+
+MOD = 'synapgrad.functional'
 
 def ops_of(model, modname):
     ops, problems = opcat.catalogue(model)
     return [o for o in ops if o.func.mod.modname == modname], [p for p in problems if p[0].startswith(modname + '.')]
 
 def check(model, R, tier):
-    ops, problems = ops_of(model, 'synapgrad.functional')
+    ops, problems = ops_of(model, MOD)
     for q, why in problems:
         R.incomplete_at('C01.WRAP', q, why)
+    R.rule('C01.CATALOGUE', 'every tensor op wrapper of synapgrad/functional.py is an instance of the op template', floor=26)
+    for o in ops:
+        R.ob('C01.CATALOGUE', o.qual, 'template instance', True, '', o.func.loc)
     R.analysed['ops'] = [o.name for o in ops]
+    R.analysed['backward_kernels'] = sorted({d for o in ops for d, _, _ in o.bwd_calls})
     T.check_ops(model, R, ops, 'C01')
     T.check_cover(model, R, ops, 'C01')
-    return dict(explanation='x', assumptions=[], technique='x')
+    K.check_glin(model, R, ops, 'C01')
+    K.check_perm(model, R, ops, 'C01')
+    K.check_unbroadcast(model, R, ops, 'C01')
+    kernels = [model.func(d) for d in sorted({d for o in ops for d, _, _ in o.bwd_calls})]
+    K.check_scatter(model, R, kernels, 'C01', floor=3)
+    K.check_reduce(model, R, 'C01', ['synapgrad.cpu_ops.%s_backward' % n for n in ('sum', 'mean', 'max', 'min')])
+    from sa import rules_axis as A
+    A.check_axis(model, R, 'C01', scope='backward')
+    return dict(
+        explanation='Static template + abstract-interpretation check of the 26 tensor-op wrappers and their backward kernels: decides the wiring '
+                    '(children/kernel pairing/argument binding/accumulation), linearity of every returned gradient in the upstream gradient, un-broadcast '
+                    'targets, inverse permutations, accumulating scatters, reduced-axis re-insertion and axis normalisation. It does NOT decide the numerical '
+                    'value of any Jacobian entry (a wrong but linear, correctly shaped closed form is out of reach).',
+        assumptions=['NumPy API roles as frozen in sa/domains/linear.py and sa/rules_kernel.py', 'kernels are reached only through the catalogued wrappers'],
+        technique='ast op-template extraction + abstract interpretation (gradient-linearity lattice) + def-use rules')
